@@ -6,27 +6,30 @@ import time
 import vf
 
 GROUP = "Password"
-THEOREMS = ["C25_iff_partial", "C25_mixed_case_refuted", "C25_migration_invariant", "C25_no_upgrade_at_72", "C25_migration_old_refuted",
+THEOREMS = ["C25_iff", "C25_reachable_wf", "C25_iff_partial", "C25_mixed_case_refuted", "C25_migration_invariant", "C25_no_upgrade_at_72", "C25_migration_old_refuted",
             "C25_change_keeps_wf", "C25_change_decides", "C25_laws_satisfiable"]
 META = {
     "group": GROUP,
     "technique": "Coq proof over a Gallina model of ValidatePassword (bcrypt / legacy SHA-256 / brace-quoted plaintext, "
                  "case-folded lookup, logon-or-root, upgrade of legacy credentials) with bcrypt and SHA-256 as parameters under "
                  "stated laws + vm_compute correspondence with the real ValidatePassword on file- and SQLite-backed user stores",
-    "text": "C25_iff_partial: for every store whose user names are lower case and distinct (what every write path produces), every "
-            "user name, password and plaintext setting, the pair authenticates iff both are non-empty, a user with that name up to "
-            "case exists, the password matches the stored credential in its format (bcrypt compare / SHA-256 hex equal / quoted "
-            "plaintext equal and plaintext enabled) and the user holds ego.logon or ego.root (case-insensitive). "
-            "C25_migration_invariant_partial: whatever a login attempt does to the store, every later verdict for every user and "
-            "candidate is unchanged, provided the candidate is at most 72 bytes or the upgraded password is not exactly 72 bytes. "
-            "C25_change_keeps_wf / C25_change_decides: a credential change (ReadUser, replace Password, WriteUser) keeps the store "
-            "well formed and from then on the user is judged by the new credential, everybody else as before. "
-            "Both excluded cases are real and recorded as known findings with Coq witnesses (C25_mixed_case_refuted: a stored name "
-            "with an upper-case letter can never log in; C25_migration_refuted: after a 72-byte legacy password is upgraded, any "
-            "longer password with that prefix is accepted because bcrypt reads 72 bytes). The model (with a stand-in for the hashes "
-            "that provably satisfies the laws, C25_laws_satisfiable) is compared with the real code on every run; the statement is "
-            "evaluated independently on the real verdicts, stored credentials and the re-opened store. "
-            "partial: stored names containing upper-case letters, and candidates longer than 72 bytes against an upgraded 72-byte password",
+    "text": "C25_iff: for every store that the server's own write paths can produce from the empty store (SetUser as used by the "
+            "admin create handler and the Ego builtin, the DeleteUser builtin, the admin credential update, the login-time upgrade; "
+            "C25_reachable_wf shows they are all well formed), every user name, password and plaintext setting, the pair "
+            "authenticates iff both are non-empty, a user with that name up to case exists, the password matches the stored "
+            "credential in its format (bcrypt compare / SHA-256 hex equal / quoted plaintext equal and plaintext enabled) and the "
+            "user holds ego.logon or ego.root (case-insensitive); C25_iff_partial states the same for any store with lower-case "
+            "distinct names. C25_migration_invariant (no side condition, after repair 608546a1): whatever a login attempt does to "
+            "the store, every later verdict for every user and every candidate of any length is unchanged; C25_no_upgrade_at_72: "
+            "passwords of 72 bytes or more are never upgraded; the old code is kept as C25_migration_old_refuted. "
+            "C25_change_keeps_wf / C25_change_decides: after a credential change the user is judged by the new credential, "
+            "everybody else as before. One finding stays recorded (C25_mixed_case_refuted): a record whose stored name contains an "
+            "upper-case letter (not producible by the modelled write paths: a hand-edited users file, a direct WriteUser, "
+            "--default-credential Admin:...) can never log in. The model (with a stand-in for the hashes that provably satisfies "
+            "the laws, C25_laws_satisfiable) is compared with the real code on every run, including the real SetUser / DeleteUser "
+            "builtins and credential changes with the auth cache live; the statement is evaluated independently on the real "
+            "verdicts, stored credentials, stored names and the re-opened store. "
+            "partial: stores holding a name with an upper-case letter (recorded finding, outside the modelled write paths)",
     "note": "Trusted: Coq kernel; bcrypt and SHA-256 idealised by the four laws of hash_laws (collision-free SHA-256; a bcrypt hash "
             "of a password of <= 72 bytes matches exactly that password among candidates of <= 72 bytes - this ignores bcrypt's "
             "cyclic-key collisions for passwords containing NUL bytes; bcrypt reads only 72 bytes; generated hashes start with $2a$); "
@@ -165,6 +168,8 @@ def corpus():
     u = lambda n, f, p, perms: {"name": n, "fmt": f, "pw": hx(p), "perms": perms}
     s = lambda n, p: {"user": hx(n.encode()), "pass": hx(p)}
     c = lambda n, f, p: {"op": "change", "user": hx(n.encode()), "fmt": f, "pw": hx(p)}
+    su = lambda n, p, perms: {"op": "setuser", "user": hx(n.encode()), "pw": hx(p), "perms": perms}
+    du = lambda n: {"op": "deluser", "user": hx(n.encode())}
     p72 = b"a" * 72
     return [
         # C25_migration_refuted witness: 72-byte quoted plaintext, upgrade, then prefix+tail
@@ -188,6 +193,15 @@ def corpus():
                                                        u("al", "plain", b"p", ["ego.root"])],
          "steps": [s("bob", b"first-secret"), c("bob", "bcrypt", b"second-secret"), s("bob", b"second-secret"),
                    s("bob", b"first-secret"), s("al", b"q"), c("al", "plain", b"q"), s("al", b"p"), s("al", b"q"), s("al", b"q")]},
+        # users created / replaced / deleted through the server's own path (SetUser / DeleteUser builtins, as the admin
+        # handlers do): the name is lower-cased there, so "Carol" can log in under every spelling (C25_iff, C25_reachable_wf)
+        {"store": "file", "plaintext": False, "users": [u("bob", "bcrypt", b"pw", ["ego.logon"])],
+         "steps": [su("Carol", b"pw1", ["ego.logon"]), s("Carol", b"pw1"), s("CAROL", b"nope"),
+                   su("CAROL", b"pw2", ["EGO.ROOT"]), s("cArOl", b"pw2"), du("cArol"), s("carol", b"pw2"), s("bob", b"pw")]},
+        {"store": "db", "plaintext": False, "users": [u("bob", "bcrypt", b"pw", ["ego.logon"])],
+         "steps": [su("Carol", b"pw1", ["ego.logon"]), s("Carol", b"pw1"), s("carol", b"nope"),
+                   su("CAROL", b"pw2", ["tables"]), s("carol", b"pw2"), su("carol", b"pw3", ["ego.logon"]), s("Carol", b"pw2"),
+                   s("Carol", b"pw3"), du("CAROL"), s("carol", b"pw3"), du("BOB"), s("bob", b"pw")]},
         {"store": "db", "plaintext": True, "users": [u("al", "plain", b"p", ["ego.root"]), u("bob", "sha", b"L" * 80, ["ego.logon"])],
          "steps": [s("al", b"P"), s("Al", b"p"), s("al", b"p"), s("bob", b"L" * 80), s("bob", b"L" * 72), s("bob", b"L" * 80)]},
     ]
@@ -232,6 +246,17 @@ def vstored(fmt, pw):
     return vf.vstr(pw)
 
 
+def vstep(s):
+    op = s.get("op")
+    if op == "change":
+        return "Change %s (%s)" % (vf.vstr(bytes.fromhex(s["user"])), vstored(s["fmt"], bytes.fromhex(s["pw"])))
+    if op == "setuser":
+        return "SetU %s (%s) %s" % (vf.vstr(bytes.fromhex(s["user"])), vstored("bcrypt", bytes.fromhex(s["pw"])), vperm(s["perms"]))
+    if op == "deluser":
+        return "DelU %s" % vf.vstr(bytes.fromhex(s["user"]))
+    return "Login %s %s" % (vf.vstr(bytes.fromhex(s["user"])), vf.vstr(bytes.fromhex(s["pass"])))
+
+
 PRELUDE = """From Password Require Import Model.
 Open Scope N_scope.
 Definition cls (init : user) (st : store) : N :=
@@ -239,7 +264,7 @@ Definition cls (init : user) (st : store) : N :=
   | None => 3
   | Some y => if str_eqb (upass y) (upass init) then 0 else if is_bcrypt (upass y) then 1 else 2
   end.
-Inductive stp := Login (u p : str) | Change (n c : str).
+Inductive stp := Login (u p : str) | Change (n c : str) | SetU (n c : str) (ps : list str) | DelU (n : str).
 (* [base] = what the harness last wrote per user (seed or change); classes are relative to it *)
 Fixpoint runs (pt : bool) (base st : store) (steps : list stp) : list N :=
   match steps with
@@ -249,6 +274,12 @@ Fixpoint runs (pt : bool) (base st : store) (steps : list stp) : list N :=
   | Change n c :: r => let st' := change_password st n c in
                        let base' := change_password base n c in
                        (match lookup n st with Some _ => 1 | None => 0 end) :: map (fun x => cls x st') base' ++ runs pt base' st' r
+  | SetU n c ps :: r => let st' := set_user st n c ps in
+                        let base' := set_user base n c ps in
+                        1 :: map (fun x => cls x st') base' ++ runs pt base' st' r
+  | DelU n :: r => let st' := delete_user st n in
+                   let base' := delete_user base n in
+                   1 :: map (fun x => cls x st') base' ++ runs pt base' st' r
   end.
 """
 CLS = {"same": 0, "bcrypt": 1, "missing": 3}
@@ -284,7 +315,7 @@ def run(ck):
     if ck.replay_file:
         scs = [json.load(open(ck.replay_file))["replay"]["scenario"]]
     else:
-        nf, nfm, nd, ndm = (40, 5, 12, 2) if quick else (400, 60, 120, 30)
+        nf, nfm, nd, ndm = (30, 4, 10, 2) if quick else (400, 60, 120, 30)
         scs = corpus()
         scs += [gen_scenario(ck.rng, "file", False) for _ in range(nf)] + [gen_scenario(ck.rng, "file", True) for _ in range(nfm)]
         scs += [gen_scenario(ck.rng, "db", False) for _ in range(nd)] + [gen_scenario(ck.rng, "db", True) for _ in range(ndm)]
@@ -301,7 +332,7 @@ def run(ck):
     outs = json.load(open(outp))
 
     nsteps, classes, oracle_bad = 0, set(), set()
-    dist = {"file": 0, "db": 0, "upgrades": 0, "changes": 0, "accepted": 0, "steps_after_upgrade": 0, "logins_after_change": 0}
+    dist = {"file": 0, "db": 0, "upgrades": 0, "changes": 0, "api_writes": 0, "accepted": 0, "steps_after_upgrade": 0, "logins_after_change": 0}
     for i, (sc, o) in enumerate(zip(scs, outs)):
         dist[sc["store"]] += 1
         if o.get("error"):
@@ -320,6 +351,29 @@ def run(ck):
 
         for k, (st, so) in enumerate(zip(sc["steps"], o["steps"])):
             nsteps += 1
+            if st.get("op") in ("setuser", "deluser"):
+                cn = bytes.fromhex(st["user"]).decode().lower()
+                dist["api_writes"] += 1
+                if not so["ok"]:
+                    rep("write-path-failed", "%s %r failed" % (st["op"], cn), k)
+                    break
+                if st["op"] == "setuser":
+                    info[cn] = ("bcrypt", bytes.fromhex(st["pw"]), st["perms"])
+                    changed.add(cn)
+                else:
+                    info.pop(cn, None)
+                upgraded.pop(cn, None)
+                for key in [q for q in asked if q[0] == cn]:
+                    del asked[key]
+                if sorted(so.get("names") or []) != sorted(info):
+                    rep("write-path-names", "after %s %r the store holds the users %r, expected %r (names are lower-cased by the "
+                        "server's write paths)" % (st["op"], bytes.fromhex(st["user"]).decode(), so.get("names"), sorted(info)), k)
+                    break
+                bad = [(name, c) for name, c in so["stored"].items() if c != ("bcrypt" if name in upgraded else "same")]
+                if bad:
+                    rep("stored-credential", "after %s %r the store holds %r" % (st["op"], cn, bad), k)
+                    break
+                continue
             if st.get("op") == "change":
                 cn = bytes.fromhex(st["user"]).decode()
                 dist["changes"] += 1
@@ -406,9 +460,7 @@ def run(ck):
             continue
         st = "[" + "; ".join("{| uname := %s; upass := %s; uperms := %s |}" % (
             vf.vstr(u["name"]), vstored(u["fmt"], bytes.fromhex(u["pw"])), vperm(u["perms"])) for u in sc["users"]) + "]"
-        steps = "[" + "; ".join(
-            ("Change %s (%s)" % (vf.vstr(bytes.fromhex(s["user"])), vstored(s["fmt"], bytes.fromhex(s["pw"])))) if s.get("op") == "change"
-            else ("Login %s %s" % (vf.vstr(bytes.fromhex(s["user"])), vf.vstr(bytes.fromhex(s["pass"])))) for s in sc["steps"]) + "]"
+        steps = "[" + "; ".join(vstep(s) for s in sc["steps"]) + "]"
         exprs["s%d" % i] = "runs %s %s %s %s" % ("true" if sc["plaintext"] else "false", st, st, steps)
     t0 = time.time()
     okc, res = vf.coq_eval(GROUP, ck.work, "cases", PRELUDE, exprs)
@@ -422,11 +474,21 @@ def run(ck):
         if "s%d" % i not in res:
             continue
         m = res["s%d" % i]
-        w = 1 + len(sc["users"])
-        bad = None
+        order = [u["name"] for u in sc["users"]]      # the model's record order: write replaces in place or appends
+        pos, bad = 0, None
         for k, so in enumerate(o["steps"]):
-            row = m[w * k: w * (k + 1)]
-            real = [1 if so["ok"] else 0] + [CLS.get(so["stored"][u["name"]], 2) for u in sc["users"]]
+            stp = sc["steps"][k]
+            if stp.get("op") == "setuser":
+                nm = bytes.fromhex(stp["user"]).decode().lower()
+                if nm not in order:
+                    order.append(nm)
+            elif stp.get("op") == "deluser":
+                nm = bytes.fromhex(stp["user"]).decode().lower()
+                order = [x for x in order if x != nm]
+            w = 1 + len(order)
+            row = m[pos: pos + w]
+            pos += w
+            real = [1 if so["ok"] else 0] + [CLS.get(so["stored"].get(nm, "missing"), 2) for nm in order]
             if row != real:
                 bad = (k, row, real)
                 break
